@@ -112,7 +112,7 @@ var (
 // checkPorts pushes one port-set description through the bit set, the range
 // list, and the route constructor's choice (as destination and as source
 // criterion, plain and inverted), probing all of 1..65535.
-func checkPorts(t *tally, spec string, list []uint16, fourRoutes, all bool) (fails []portFail, key string) {
+func checkPorts(t *tally, spec string, list []uint16, variant int64, fourRoutes, all bool) (fails []portFail, key string) {
 	ref, count, runs, first := refPorts(spec, list)
 	key = refRangesKey(&ref)
 	t.cases++
@@ -206,14 +206,18 @@ func checkPorts(t *tally, spec string, list []uint16, fourRoutes, all bool) (fai
 		source bool
 		invert bool
 	}
-	rvs := []rv{
+	all4 := []rv{
 		{"route(toPortRanges)", router.RouteConfig{ToPortRanges: spec, ToPorts: list}, false, false},
 		{"route(fromPortRanges,inverted)", router.RouteConfig{FromPortRanges: spec, FromPorts: list, InvertFromPorts: true}, true, true},
+		{"route(fromPortRanges)", router.RouteConfig{FromPortRanges: spec, FromPorts: list}, true, false},
+		{"route(toPortRanges,inverted)", router.RouteConfig{ToPortRanges: spec, ToPorts: list, InvertToPorts: true}, false, true},
 	}
-	if fourRoutes {
-		rvs = append(rvs,
-			rv{"route(fromPortRanges)", router.RouteConfig{FromPortRanges: spec, FromPorts: list}, true, false},
-			rv{"route(toPortRanges,inverted)", router.RouteConfig{ToPortRanges: spec, ToPorts: list, InvertToPorts: true}, false, true})
+	rvs := all4
+	if !fourRoutes { // two of the four per case, alternating with the case index
+		rvs = all4[:2]
+		if variant%2 == 1 {
+			rvs = all4[2:]
+		}
 	}
 	for _, v := range rvs {
 		v.cfg.Name = "c10"
@@ -404,7 +408,7 @@ func portParts(c *harness.Check) {
 	total, complete := parallel(int64(len(cases)), 4, func() struct{} { return struct{}{} },
 		func(_ struct{}, t *tally, i int64) {
 			pc := cases[i]
-			fails, key := checkPorts(t, pc.spec, pc.list, four, false)
+			fails, key := checkPorts(t, pc.spec, pc.list, i, four, false)
 			c.Distinct(key, true)
 			for _, f := range fails {
 				report(20<<48|i, f.sig(), f.what(pc.spec, pc.list), replayOfPort(pc, f))
@@ -451,7 +455,7 @@ func replayPort(r map[string]any) []string {
 		list = append(list, uint16(p))
 	}
 	var t tally
-	fails, _ := checkPorts(&t, spec, list, true, true)
+	fails, _ := checkPorts(&t, spec, list, 0, true, true)
 	fmt.Printf("replay port case: %q list=%v, %d operations on the real code\n", spec, list, t.ops)
 	var msgs []string
 	for _, f := range fails {
